@@ -323,6 +323,28 @@ def record_cli_case(cid, seed, origin='random'):
         for hs in (str(rnd.randint(1, 9999)), str(rnd.randint(1, 9999)), str(rnd.randint(1, 9999))):
             events.append({'a': 'repeat', 'setlike': 'F', 'what': 'ptb_delete_traces keepall slash', 'hashseed': hs,
                            'out1': s0['ptb0.out'], 'out2': slash('ptb_%s.out' % hs, hs)['ptb_%s.out' % hs]})
+        # co-indexed labels that RECUR from sentence to sentence (the same WHNP-1 ... *T*-1 in every sentence), under the
+        # trace-deletion variants that read the co-index (slash annotation, keepcoindex) and next to binarization,
+        # which edits the label objects it parses: what sentence 2 gets must not depend on sentence 1 having been there
+        def ptbsent(ws):
+            return ('( (SBARQ (WHNP-1 (WP %s)) (SQ-2 (VBD %s) (NP-SBJ (NNP %s)) (ADVP-3 (RB %s)) (VP (VB %s) (NP (-NONE- *T*-1)) '
+                    '(ADVP (-NONE- *T*-3)))) (. ?)) )\n' % tuple(ws))
+        pa_, pb_ = ptbsent(['who', 'did', 'Fritz', 'often', 'tell']), ptbsent(['what', 'has', 'Hans', 'never', 'seen'])
+        write('PA.brackets', pa_)
+        write('PB.brackets', pb_)
+        write('PAB.brackets', pa_ + pb_)
+        for what, tp in (('ptb_delete_traces slash', ['--trans', 'ptb_delete_traces', '--params', 'slash']),
+                         ('ptb_delete_traces keepall slash', ['--trans', 'ptb_delete_traces', '--params', 'keepall', 'slash']),
+                         ('ptb_delete_traces keepcoindex; binarize',
+                          ['--trans', 'ptb_delete_traces', 'negra_mark_heads', 'binarize', '--params', 'keepcoindex']),
+                         ('binarize; ptb_delete_traces keepcoindex',
+                          ['--trans', 'negra_mark_heads', 'binarize', 'ptb_delete_traces', '--params', 'keepcoindex'])):
+            def pconv(src, dest):
+                a = ['transform', src, dest, '--src-format', 'brackets', '--dest-format', 'brackets'] + tp
+                return [x for x in cli_lines(a, tmp, [dest])[dest] if x != '']
+            events.append({'a': 'concat', 'kind': 'seq', 'setlike': 'F', 'what': what + ', recurring co-indexed labels',
+                           'a_': pconv('PA.brackets', 'PA.out'), 'b_': pconv('PB.brackets', 'PB.out'),
+                           'ab': pconv('PAB.brackets', 'PAB.out')})
         # grammar: sums
         gt = rnd.choice(['treebank', 'leftright', 'optimal'])
         mk = rnd.choice([[], ['--markov', 'v:1', 'h:2'], ['--markov', 'v:2', 'h:1', 'nofanout']]) if gt != 'treebank' else []
